@@ -191,6 +191,62 @@ func GoInline(on bool)                        {}
 // null only (the "arbitrary content" alternative of the decoder model is switched off).
 func JSONArbitrary(on bool) {}
 
+// AssertNoFlow: symbolically a two-run non-interference obligation (the value must not depend on the
+// named secret symbols except through public-key derivation and hashing).  Natively: the value's bytes
+// must not contain any scripted secret verbatim or hex-encoded.
+func AssertNoFlow(label string, value interface{}, secrets ...string) {
+	load()
+	var data []byte
+	switch v := value.(type) {
+	case []byte:
+		data = v
+	case string:
+		data = []byte(v)
+	default:
+		data = []byte(fmt.Sprint(v))
+	}
+	ok := true
+	for _, name := range secrets {
+		for full, raw := range vals {
+			base := full
+			for i := 0; i < len(full); i++ {
+				if full[i] == '#' {
+					base = full[:i]
+					break
+				}
+			}
+			if base != name {
+				continue
+			}
+			var s string
+			if json.Unmarshal(raw, &s) != nil || s == "" {
+				continue
+			}
+			secret, err := hex.DecodeString(s)
+			if err != nil || len(secret) < 4 {
+				continue
+			}
+			if bytesContains(data, secret) || bytesContains(data, []byte(hex.EncodeToString(secret))) {
+				ok = false
+			}
+		}
+	}
+	Assert(ok, label)
+}
+
+func bytesContains(a, b []byte) bool {
+	for i := 0; i+len(b) <= len(a); i++ {
+		j := 0
+		for j < len(b) && a[i+j] == b[j] {
+			j++
+		}
+		if j == len(b) {
+			return true
+		}
+	}
+	return false
+}
+
 // Thorough reports whether the check runs in the thorough tier (natively: $VERIF_TIER).
 func Thorough() bool { return os.Getenv("VERIF_TIER") == "thorough" }
 
@@ -215,6 +271,10 @@ func Fail(msg string) { panic("zzverif.Fail: " + msg) }
 func Override(target string, fn interface{}) {}
 
 func LocksHeld() int { return 0 }
+
+// LockOrderCycle: symbolically, whether the locks taken so far on this path were taken in
+// contradictory orders by different calls (natively the harness has to provoke the deadlock itself).
+func LockOrderCycle() bool { return false }
 
 // UFStr is an uninterpreted function for oracles (natively: a deterministic rendering).
 func UFStr(name string, args ...interface{}) string { return fmt.Sprint(append([]interface{}{name}, args...)...) }
